@@ -139,6 +139,18 @@ def run_parts(mod, tier, seed, shard=0, nshards=1, collect=False):
             failure = {"part": part.name, "case": json.loads(_jd(c)), "kind": v.kind, "msg": v.msg,
                        "data": v.data}
             break
+        except Exception as e:
+            # Hypothesis could not replay a failure identically (FlakyFailure): the code under test keeps state
+            # between cases.  The violation it did see is real; report it with the case it was seen on (replaying
+            # that case alone may pass -- the message says so)
+            from hypothesis.errors import Flaky
+            if isinstance(e, Flaky) and "v" in last:
+                v = last["v"]
+                failure = {"part": part.name, "case": json.loads(_jd(last["case"])), "kind": v.kind,
+                           "msg": v.msg + "  [seen during the search but not on an identical replay: the library "
+                                          "carries state from one case to the next]", "data": v.data}
+                break
+            raise
     return rec.export(), failure
 
 
